@@ -1,7 +1,4 @@
 ---- MODULE TmpSS ----
 EXTENDS ScanSelectDomain, TLC
-W == SelWorlds(FALSE)
-ASSUME PrintT(<<"VF", "A", FamilySizes(FALSE)>>)
-ASSUME PrintT(<<"VF", "B", LemmaSpecificWins(W)>>)
-ASSUME PrintT(<<"VF", "C", LemmaOrderFree(W)>>)
+ASSUME PrintT(<<"VF", "A", FamilySizes(TRUE), Cardinality(SelWorlds(TRUE)), Cardinality(SelWorlds(FALSE))>>)
 ====
